@@ -221,7 +221,7 @@ qb_log_blackbox_print_from_file(const char *bb_filename)
 {
 	qb_ringbuffer_t *instance;
 	ssize_t bytes_read;
-	int max_size = 2 * QB_LOG_MAX_LEN;
+	int max_size;
 	char *chunk;
 	int fd;
 	int err = 0;
@@ -264,6 +264,15 @@ qb_log_blackbox_print_from_file(const char *bb_filename)
 	if (instance == NULL) {
 		return -EIO;
 	}
+	/*
+	 * A record is as long as the writer's line length and function name
+	 * made it: no constant will do, but no record is longer than what
+	 * the ring holds.
+	 */
+	max_size = qb_rb_space_used(instance);
+	if (max_size < (int)BB_MIN_ENTRY_SIZE) {
+		max_size = BB_MIN_ENTRY_SIZE;
+	}
 	chunk = malloc(max_size);
 	if (!chunk) {
 		goto cleanup;
@@ -281,7 +290,7 @@ qb_log_blackbox_print_from_file(const char *bb_filename)
 		time_t time_sec;
 		uint32_t msg_len;
 		struct tm *tm;
-		char message[QB_LOG_MAX_LEN];
+		char message[QB_LOG_ABSOLUTE_MAX_LEN];
 
 		bytes_read = qb_rb_chunk_read(instance, chunk, max_size, 0);
 
@@ -362,7 +371,7 @@ qb_log_blackbox_print_from_file(const char *bb_filename)
 		}
 		/* message length */
 		memcpy(&msg_len, ptr, sizeof(uint32_t));
-		if (msg_len > QB_LOG_MAX_LEN || msg_len <= 0 ||
+		if (msg_len > QB_LOG_ABSOLUTE_MAX_LEN || msg_len <= 0 ||
 		    msg_len > (chunk + bytes_read) - (ptr + sizeof(uint32_t)) ||
 		    memchr(ptr + sizeof(uint32_t), '\0', msg_len) == NULL) {
 #ifndef S_SPLINT_S
@@ -375,7 +384,7 @@ qb_log_blackbox_print_from_file(const char *bb_filename)
 		ptr += sizeof(uint32_t);
 
 		/* message content */
-		len = qb_vsnprintf_deserialize_n(message, QB_LOG_MAX_LEN, ptr,
+		len = qb_vsnprintf_deserialize_n(message, sizeof(message), ptr,
 						 (chunk + bytes_read) - ptr);
 		assert(len > 0);
 		len--;
